@@ -33,4 +33,4 @@ Ltac pbool := cbn [pand por pnot attr olift2 olift1 option_map negb andb orb]; c
 (* tokens of a rendered source location (transformers/transformer.py: str_location) *)
 Inductive ltok := LFile (f : nat) | LNum (n : nat) | LColon | LDash.
 (* tokens of a representation string (_rep of the formula and path classes): a literal piece of the format string, a number, a name or an argument list *)
-Inductive rtok := RL (s : string) | RN (n : nat) | RName (k : nat) | RArgs (k : nat).
+Inductive rtok := RL (s : string) | RN (n : nat) | RName (k : nat) | RArgs (k : nat) | RC (c : Ascii.ascii).     (* RC: one character of a literal piece (Proofs/RepsProofs.v) *)
